@@ -343,10 +343,13 @@ def _child(fn, item, conn):
         conn.close()
 
 
-def pool_map(fn, items, workers=None, task_timeout=120):
+def pool_map(fn, items, workers=None, task_timeout=None):
     """fork one child per item (cheap: modules are already imported), at most `workers` at a time; a child that runs
     longer than task_timeout seconds or exceeds 6 GB is killed and its item reported as {"status": "killed"}"""
     import multiprocessing as mp
+    if task_timeout is None:
+        # a grounding that explodes cannot be interrupted from inside; the child is killed and its case counted as skipped
+        task_timeout = 45 if os.environ.get("VERIF_TIER_EFFECTIVE", "quick") == "quick" else 240
     workers = workers or min(14, os.cpu_count() or 4)
     ctx = mp.get_context("fork")
     results = [None] * len(items)
@@ -368,7 +371,12 @@ def pool_map(fn, items, workers=None, task_timeout=120):
                 except (EOFError, OSError):
                     tag, val = "err", "child died"
                 results[k] = val if tag == "ok" else {"status": "killed", "error": val}
-                p.join()
+                # the answer is in: a child that is slow to exit (clingo tearing down a large grounding or a cancelled
+                # solver thread) must not block the pool
+                p.join(0.2)
+                if p.is_alive():
+                    p.kill()
+                    p.join()
                 done.append(k)
             elif not p.is_alive():
                 results[k] = {"status": "killed", "error": f"child exit {p.exitcode}"}
